@@ -29,6 +29,15 @@ def connected(levels):
     return len({find(s) for s in series}) == 1
 
 
+WARMUP_SHIFT = 3
+
+
+def warmup_mapping(mapping):
+    """The same incidence pattern with every interval id shifted (so that some level lists the same ids as a
+    level of the alignment under test, in another position of the numbering) and concrete crossing values."""
+    return {k: [(sid + WARMUP_SHIFT, Fraction(7 * i + (k % 5))) for i, (sid, _) in enumerate(v)] for k, v in mapping.items()}
+
+
 def harness(eng, ctx):
     S, L = ctx['S'], ctx['L']
     fo = fit_common.load_fit()
@@ -52,6 +61,9 @@ def harness(eng, ctx):
             entries.reverse()
         mapping[100 + h] = entries
     try:
+        if ctx.get('warmup'):
+            # another alignment done earlier in the same process: the same shape, intervals numbered differently
+            fo.find_offsets(warmup_mapping(mapping))
         series_ids, offsets = fo.find_offsets(dict((k, list(v)) for k, v in mapping.items()))
     except Exception as e:
         eng.fail_exception(e)
@@ -175,6 +187,12 @@ class C05(Check):
                                          'nra': quick and S <= 2, 'ids': [3 * s + 1 for s in range(S)]},
                                name='find_offsets[%dx%d]' % (S, L))
             self.absorb(exp, need_paths=2)
+        for (S, L) in [z for z in sizes if z[0] <= 3]:
+            exp = symx.explore(harness, {'S': S, 'L': L, 'seed': self.seed, 'replay_every': 5, 'shuffle': False, 'warmup': True,
+                                         'nra': False, 'ids': [3 * s + 1 for s in range(S)]},
+                               name='find_offsets_after_another_alignment[%dx%d]' % (S, L))
+            self.absorb(exp, need_paths=2)
+        self.bounds['earlier call'] = 'the same patterns (up to 3 series) after an alignment of the same shape with shifted interval ids in the same process'
         # the tables written by `rise` and `recession` (with and without a reference level):
         # residual sums of the stored offsets and crossings, on the C13 patterned record
         from checks import C13
@@ -207,7 +225,29 @@ class C05(Check):
         info = {'entry': 'spowtd.fit_offsets.find_offsets', 'head_mapping': mapping,
                 'expected': failure.get('detail'), 'label': failure.get('label')}
         try:
-            sids, offs = real.find_offsets({k: list(v) for k, v in mapping.items()})
+            if failure['harness'].startswith('find_offsets_after_another_alignment'):
+                # the two calls in a fresh interpreter: whatever this process did before must not matter
+                info['earlier_call'] = 'find_offsets on the same pattern with ids shifted by %d, then the call under test, in a new interpreter' % WARMUP_SHIFT
+                out = loader.fresh_python(
+                    'from spowtd import fit_offsets as fo\n'
+                    'conv = lambda m: {int(k): [(int(s), float(t)) for s, t in v] for k, v in m.items()}\n'
+                    'try:\n'
+                    '    fo.find_offsets(conv(PAYLOAD["first"]))\n'
+                    '    sids, offs = fo.find_offsets(conv(PAYLOAD["second"]))\n'
+                    '    print(json.dumps({"sids": [int(s) for s in sids], "offs": [float(o) for o in offs]}))\n'
+                    'except Exception as e:\n'
+                    '    print(json.dumps({"error": "%s: %s" % (type(e).__name__, e)}))\n',
+                    {'first': {str(k): [(sid, float(t)) for sid, t in v] for k, v in warmup_mapping(mapping).items()},
+                     'second': {str(k): [(sid, float(t)) for sid, t in v] for k, v in mapping.items()}})
+                if 'fresh_interpreter_error' in out:
+                    info['observed'] = out
+                    return False, info
+                if 'error' in out:
+                    info['observed'] = out['error']
+                    return (failure.get('kind') == 'exception' and failure['detail'].startswith(out['error'].split(':')[0])), info
+                sids, offs = out['sids'], out['offs']
+            else:
+                sids, offs = real.find_offsets({k: list(v) for k, v in mapping.items()})
         except Exception as e:
             info['observed'] = '%s: %s' % (type(e).__name__, e)
             return (failure.get('kind') == 'exception' and failure['detail'].startswith(type(e).__name__)), info
